@@ -611,7 +611,17 @@ func (em *emitter) emitImport(node *ast.Import, isTemplate bool) []*runtime.Func
 
 	// Emit the package and collect functions, variables and init functions.
 	pkg := node.Tree.Nodes[0].(*ast.Package)
-	funcs, vars, inits := em.emitPackage(pkg, false, node.Tree.Path)
+	var funcs map[string]*runtime.Function
+	var vars map[string]int16
+	var inits []*runtime.Function
+	if emitted, ok := em.alreadyEmittedPkgs[pkg]; ok && !isTemplate {
+		funcs, vars, inits = emitted.funcs, emitted.vars, emitted.inits
+	} else {
+		funcs, vars, inits = em.emitPackage(pkg, false, node.Tree.Path)
+		if !isTemplate {
+			em.alreadyEmittedPkgs[pkg] = emittedPackage{funcs, vars, inits}
+		}
+	}
 
 	blankImport := false
 
